@@ -44,6 +44,7 @@ structure Info where
   inline : Bool
   elseif : Bool
   label : Option String
+  endDo : Bool := true      -- `Loop.has_end_do`
 deriving DecidableEq, Repr
 
 inductive Node where
@@ -185,6 +186,15 @@ def applyLabel (label : Option String) (r : Res) : Res :=
     | .none => .err "typeerror"
     | .err e => .err e
 
+/-- the first blank-separated word of a string (`line.split(maxsplit=1)[:1]`) -/
+def firstWord (s : String) : List Char := (lstripL isWs s.toList).takeWhile (fun c => !isWs c)
+
+/-- `FortranCodegenConservative.visit_tuple`: the label is applied unless the visited text already starts with it -/
+def applyLabelC (label : Option String) (r : Res) : Res :=
+  match label, r with
+  | some lab, .some ls => if firstWord (joinNl ls) = lab.toList then r else applyLabel label r
+  | _, _ => applyLabel label r
+
 /-! ## the regular backend's output for a node itself -/
 
 structure Asg where
@@ -215,9 +225,9 @@ def lineAt (ls : Lines) (k : Nat) : Res :=
   | some l => .some [l]
   | none => .err "indexerror"
 
-/-- the last line that is `ELSE` up to case and blanks (`elseline[-1]`) -/
+/-- the last line that is `ELSE` up to case, blanks and a trailing comment (`elseline[-1]`) -/
 def elseLine (ls : Lines) : Res :=
-  match (ls.filter fun s => strip (upper s) = "ELSE").getLast? with
+  match (ls.filter fun s => strip (upper (String.ofList (s.toList.takeWhile (· ≠ '!')))) = "ELSE").getLast? with
   | some l => .some [l]
   | none => .err "indexerror"
 
@@ -266,16 +276,13 @@ def condFallback (rd : RData) (d : Nat) (ie : Bool) (info : Info) (elsEmpty : Bo
       joinRes (header :: body :: (elsePart ++ [ofLines (indentLines d rd.ftr)]))
 
 /-- the `INVALID_CHILDREN` branches of `visit_Loop` / `visit_Conditional` (block form): header, `ELSE` and footer lines are taken
-from the source text, `Bv` / `Ev` are the visited `body` / `else_body` -/
-def recover (info : Info) (s : Src) (elsEmpty : Bool) (ie : Bool) (Bv Ev : Res) : Res :=
+from the source text (the footer of a loop only when it has an `END DO`), `Bv` / `Ev` are the visited `body` / `else_body` -/
+def recover (info : Info) (s : Src) (elsEmpty : Bool) (Bv Ev : Res) : Res :=
   match info.kind with
-  | .loop => joinRes [.none, lineAt s.text 0, Bv, lineAt s.text (s.l1 - s.l0), .none]
+  | .loop => joinRes [.none, lineAt s.text 0, Bv, if info.endDo then lineAt s.text (s.l1 - s.l0) else .none, .none]
   | _ =>
     let header := lineAt s.text 0
-    if info.elseif then
-      -- `self.visit(o.else_body, is_elseif=True, **kwargs)`: a second `is_elseif` when `kwargs` already has one
-      if ie then (match firstErr [header, Bv] with | some e => .err e | none => .err "typeerror")
-      else joinRes [header, Bv, Ev]
+    if info.elseif then joinRes [header, Bv, Ev]
     else
       let elsePart := if elsEmpty then [Ev] else [elseLine s.text, Ev]
       joinRes (header :: Bv :: (elsePart ++ [lineAt s.text (s.l1 - s.l0)]))
@@ -314,7 +321,7 @@ def assemble (R : Render) (d : Nat) (ie : Bool) (info : Info) (src : Option Src)
     match src with
     | some s =>
       if s.status = .valid then .some s.text
-      else if s.status = .ichildren then recover info s elsEmpty ie (B (d + loopIndent) ie) .none
+      else if s.status = .ichildren then recover info s elsEmpty (B (d + loopIndent) ie) .none
       else joinRes [.none, ofLines (indentLines d rd.hdr), B (d + loopIndent) ie, ofLines (indentLines d rd.ftr), .none]
     | none => joinRes [.none, ofLines (indentLines d rd.hdr), B (d + loopIndent) ie, ofLines (indentLines d rd.ftr), .none]
   | .scoped | .iother =>
@@ -324,8 +331,9 @@ def assemble (R : Render) (d : Nat) (ie : Bool) (info : Info) (src : Option Src)
     | some s =>
       if s.status = .valid then .some s.text
       else if s.status = .ichildren && !info.inline then
-        recover info s elsEmpty ie (B (d + conditionalIndent) ie)
-          (if info.elseif then (if ie then .none else E d true) else E (d + conditionalIndent) ie)
+        -- `kwargs.pop('is_elseif', None)`: the header comes from the source, the marker stops here
+        recover info s elsEmpty (B (d + conditionalIndent) false)
+          (if info.elseif then E d true else E (d + conditionalIndent) false)
       else condFallback rd d ie info elsEmpty B E
     | none => condFallback rd d ie info elsEmpty B E
 
@@ -339,7 +347,7 @@ def cgen (R : Render) (d : Nat) (ie : Bool) : Node → Res
 /-- the items of `visit_tuple`: each element visited, its label applied -/
 def cgenItems (R : Render) (d : Nat) (ie : Bool) : List Node → List Res
   | [] => []
-  | n :: ns => applyLabel n.info.label (cgen R d ie n) :: cgenItems R d ie ns
+  | n :: ns => applyLabelC n.info.label (cgen R d ie n) :: cgenItems R d ie ns
 end
 
 /-- `visit_tuple` -/
@@ -360,15 +368,18 @@ def lookup : Mapper → Node → Option Handle
   | (k, h) :: m, o => if k = o then some h else lookup m o
 
 /-- `Transformer._rebuild`'s treatment of `source`: a valid source is cloned and marked `INVALID_CHILDREN` when
-`any(isinstance(c, Node) and not is_source_valid(c) for c in flatten(children))`.  `is_source_valid` expects a `Source`; whether it is
+`any(not is_source_valid(c) for c in nodes) or len(nodes) != n_before` (`nodes`: the node children after the visit, `n_before`: their
+number before).  `is_source_valid` expects a `Source`; whether it is
 handed the child node `c` itself (then it is `False` for every node and any node child triggers) or `c.source` is read off the code
 into the generated table `rebuildTestsChildSource`. -/
 def childTriggers (c : Node) : Bool :=
   if rebuildTestsChildSource then c.status != some .valid else true
 
-def rebuildSrc (src : Option Src) (children : List Node) : Option Src :=
+def rebuildSrc (src : Option Src) (children : List Node) (before : Nat) : Option Src :=
   match src with
-  | some s => if s.status = .valid && children.any childTriggers then some { s with status := .ichildren } else some s
+  | some s =>
+    if s.status = .valid && (children.any childTriggers || children.length != before) then some { s with status := .ichildren }
+    else some s
   | none => none
 
 /-- rebuild of a node that is not replaced, given its visited child tuples: `visit_Node` → `_rebuild`; `visit_ScopedNode` →
@@ -376,8 +387,8 @@ with `rebuild_scopes` a `_rebuild` with the *old* children (source treatment inc
 `_update(*rebuilt)` (the source is not looked at) -/
 def rebuildWith (rs : Bool) (info : Info) (src : Option Src) (body els b' e' : List Node) : Node :=
   if info.kind = .scoped then
-    if rs then .mk info (rebuildSrc src (body ++ els)) b' e' else .mk info src b' e'
-  else .mk info (rebuildSrc src (b' ++ e')) b' e'
+    if rs then .mk info (rebuildSrc src (body ++ els) (body ++ els).length) b' e' else .mk info src b' e'
+  else .mk info (rebuildSrc src (b' ++ e') (body ++ els).length) b' e'
 
 mutual
 /-- a visit with the empty mapper (what happens to a spliced-in node that is not a key): content unchanged, sources re-flagged -/
